@@ -73,11 +73,11 @@ Proof.
   destruct (is_ok er1); [|apply ext_refl]. apply ext_upd_tab_sub. eapply tab_rename_sub; eassumption.
 Qed.
 
-Lemma rename_remote_ext validate p s kn s' er : rename_remote validate p s kn = (s', er) -> ext s s'.
+Lemma rename_remote_ext fixed validate p s kn s' er : rename_remote fixed validate p s kn = (s', er) -> ext s s'.
 Proof.
   unfold rename_remote. destruct (is_node s p) eqn:En; cbn [negb]; [|intros [= <- <-]; apply ext_refl].
   apply is_node_true in En.
-  destruct (rename_checks validate s _ _) as [er0 amb]. 
+  destruct (rename_checks fixed validate s _ _) as [er0 amb]. 
   destruct (negb (is_ok er0)); [intros [= <- <-]; apply ext_upd_amb|].
   set (s0 := upd_amb s amb).
   assert (E0 : ext s s0) by apply ext_upd_amb.
@@ -94,11 +94,11 @@ Proof.
       eapply rename_gateway_ext; [|eassumption]. apply (ext_nodes _ _ X1). exact En.
 Qed.
 
-Lemma rename_peers_ext validate : forall peers s kn s' er,
-  rename_peers validate s peers kn = (s', er) -> ext s s'.
+Lemma rename_peers_ext fixed validate : forall peers s kn s' er,
+  rename_peers fixed validate s peers kn = (s', er) -> ext s s'.
 Proof.
   induction peers as [|p peers IH]; intros s kn s' er; cbn [rename_peers]; [intros [= <- <-]; apply ext_refl|].
-  destruct (rename_remote validate p s _) as [s1 er1] eqn:E1. apply rename_remote_ext in E1.
+  destruct (rename_remote fixed validate p s _) as [s1 er1] eqn:E1. apply rename_remote_ext in E1.
   destruct (is_ok er1); [|intros [= <- <-]; assumption].
   intros H. eapply ext_trans; [eassumption|]. eapply IH; eassumption.
 Qed.
@@ -107,10 +107,10 @@ Lemma rename_keys_ext fixed validate host s keys names s' r :
   is_Some (s_eng s !! host) -> rename_keys fixed validate host s keys names = (s', r) -> ext s s'.
 Proof.
   intros Hn. unfold rename_keys.
-  destruct (rename_checks validate s keys names) as [er0 amb].
+  destruct (rename_checks fixed validate s keys names) as [er0 amb].
   destruct (negb (is_ok er0)); [intros [= <- <-]; apply ext_upd_amb|].
   set (s0 := upd_amb s amb). assert (E0 : ext s s0) by apply ext_upd_amb.
-  destruct (rename_peers validate s0 _ _) as [s1 er1] eqn:E1. apply rename_peers_ext in E1.
+  destruct (rename_peers fixed validate s0 _ _) as [s1 er1] eqn:E1. apply rename_peers_ext in E1.
   set (s1' := upd_amb s1 _). assert (E1' : ext s s1').
   { eapply ext_trans; [exact E0|]. eapply ext_trans; [exact E1|]. apply ext_upd_amb. }
   destruct (negb (is_ok er1)); [intros [= <- <-]; exact E1'|].
